@@ -102,7 +102,7 @@ Proof.
   intros (Hnd & _) Hin. unfold leaves_of in Hin.
   destruct (leaves_shape _ IRInst.lexleb IRInst.lexleb_total
               (fun a b c H1 H2 => IRInst.lexleb_trans a b c H1 H2) IRInst.lexleb_antisym
-              (sig g) _ (node_ids g) Hnd _ _ _ _ (init_part_vpart g Hnd) Hin) as (ext & r & -> & Hr).
+              (sig g) _ (node_ids g) Hnd _ _ _ _ (init_part_vpart g Hnd) Hin) as (ext & r & -> & Hr & _).
   exists ext, r. auto.
 Qed.
 
